@@ -337,3 +337,151 @@ Qed.
 
 Lemma res_of_word w : res_of (map aa_char w) = w.
 Proof. induction w as [|a w IH]; [reflexivity|]. cbn [map res_of]. now rewrite aa_of_char_char, IH. Qed.
+
+(* ---------- padding and Windows line ends ---------- *)
+Lemma dropws_nonempty_app x q c r : dropws x = c :: r -> dropws (x ++ q) = dropws x ++ q.
+Proof.
+  induction x as [|a x IH]; intros H; cbn [dropws] in H; [discriminate|]. cbn [app dropws].
+  destruct (is_ws a); [apply IH; exact H | reflexivity].
+Qed.
+
+Lemma forallb_rev {X} (P : X -> bool) l : forallb P l = true -> forallb P (rev l) = true.
+Proof.
+  intros H. apply forallb_forall. intros x Hx. apply in_rev in Hx. rewrite forallb_forall in H. apply H. exact Hx.
+Qed.
+
+Lemma strip_pad p x q : forallb is_ws p = true -> forallb is_ws q = true -> strip (p ++ x ++ q) = strip x.
+Proof.
+  intros Hp Hq. unfold strip. rewrite (dropws_allws p _ Hp).
+  destruct (dropws x) as [|c r] eqn:E.
+  - assert (Hx : forallb is_ws x = true).
+    { clear -E. induction x as [|a x IH]; [reflexivity|]. cbn [dropws] in E. cbn [forallb].
+      destruct (is_ws a); [cbn [andb]; apply IH; exact E | discriminate]. }
+    replace (dropws (x ++ q)) with (@nil ascii); [reflexivity|].
+    symmetry. rewrite <- (app_nil_r (x ++ q)). rewrite (dropws_allws (x ++ q) []); [reflexivity|].
+    rewrite forallb_app, Hx, Hq. reflexivity.
+  - rewrite (dropws_nonempty_app x q c r E), E. rewrite rev_app_distr.
+    rewrite (dropws_allws (rev q) _ (forallb_rev _ _ Hq)). reflexivity.
+Qed.
+
+Lemma parse_lines_strip_ext ls ls' : map strip ls = map strip ls' -> forall h acc, parse_lines ls h acc = parse_lines ls' h acc.
+Proof.
+  revert ls'. induction ls as [|l ls IH]; intros [|l' ls'] E h acc; try discriminate E; [reflexivity|].
+  cbn [map] in E. injection E as E1 E2. cbn [parse_lines]. rewrite <- E1.
+  destruct (strip l) as [|c sl]; [apply IH; exact E2|].
+  destruct (Ascii.eqb c ">"); [destruct h; [reflexivity | apply IH; exact E2]|].
+  destruct (valid_seq (c :: sl)); [apply IH; exact E2 | reflexivity].
+Qed.
+
+(* line terminators: \n or \r\n, freely mixed *)
+Definition term_ok (t : list ascii) : Prop := t = [nl] \/ t = [cr; nl].
+
+Definition joinT (lts : list (list ascii * list ascii)) (last : list ascii) : list ascii :=
+  List.concat (map (fun lt => fst lt ++ snd lt) lts) ++ last.
+
+Lemma unl_plain_app l rest : plain l -> unl false (l ++ rest) = l ++ unl false rest.
+Proof.
+  intros [Hn Hc]. induction l as [|c l IH]; [reflexivity|]. cbn [app unl].
+  destruct (Ascii.eqb c cr) eqn:E1; [apply Ascii.eqb_eq in E1; subst; exfalso; apply Hc; left; reflexivity|].
+  destruct (Ascii.eqb c nl) eqn:E2; [apply Ascii.eqb_eq in E2; subst; exfalso; apply Hn; left; reflexivity|].
+  rewrite IH; [reflexivity | intros H; apply Hn; right; exact H | intros H; apply Hc; right; exact H].
+Qed.
+
+Lemma unl_joinT lts last : Forall (fun lt => plain (fst lt) /\ term_ok (snd lt)) lts -> plain last ->
+  unl false (joinT lts last) = join (map fst lts) last.
+Proof.
+  intros H Hl. unfold joinT, join. induction H as [|[l t] lts [Hp Ht] _ IH].
+  - cbn [map List.concat app]. rewrite <- (app_nil_r last) at 1. rewrite (unl_plain_app last [] Hl). cbn [unl]. now rewrite app_nil_r.
+  - cbn [fst snd] in Hp, Ht. cbn [map List.concat fst snd]. rewrite <- !app_assoc. rewrite (unl_plain_app l _ Hp). f_equal.
+    destruct Ht as [-> | ->]; cbn [app unl].
+    + change (Ascii.eqb nl cr) with false. change (Ascii.eqb nl nl) with true. cbv iota. f_equal. exact IH.
+    + change (Ascii.eqb cr cr) with true. change (Ascii.eqb nl cr) with false. change (Ascii.eqb nl nl) with true. cbv iota.
+      f_equal. exact IH.
+Qed.
+
+(* a padded line: whitespace (tabs, form feeds, blanks ...) around a body of the plain layout *)
+Record pline := { pl_kind : kind; pl_pre : list ascii; pl_body : list ascii; pl_post : list ascii; pl_term : list ascii }.
+Definition pl_text (x : pline) : list ascii := pl_pre x ++ pl_body x ++ pl_post x.
+Definition pline_ok (x : pline) : Prop :=
+  line_ok (pl_kind x) (pl_body x) /\ forallb is_ws (pl_pre x) = true /\ forallb is_ws (pl_post x) = true /\
+  plain (pl_text x) /\ term_ok (pl_term x).
+
+Theorem layout_parses_padded (pls : list pline) (lastl : pline) w :
+  Forall pline_ok pls -> pline_ok lastl ->
+  let kls := map (fun x => (pl_kind x, pl_body x)) (pls ++ [lastl]) in
+  (nheaders kls <= 1)%nat ->
+  (List.concat (map line_toks kls) = map Some w \/ List.concat (map line_toks kls) = map Some w ++ [None]) ->
+  forall final_newline : bool,
+  parse (joinT (map (fun x => (pl_text x, pl_term x)) pls ++ (if final_newline then [(pl_text lastl, pl_term lastl)] else []))
+               (if final_newline then [] else pl_text lastl)) = Some w.
+Proof.
+  intros Hok Hlast kls Hh Ht fin. unfold parse.
+  set (lines := map pl_text (pls ++ [lastl])).
+  assert (Hall : Forall pline_ok (pls ++ [lastl])) by (apply Forall_app; split; [exact Hok | constructor; [exact Hlast | constructor]]).
+  assert (Hlines : parse_lines lines false [] = Some ([] ++ List.concat (map line_toks kls))).
+  { rewrite (parse_lines_strip_ext lines (map snd kls)).
+    - apply parse_lines_spec; [|lia]. unfold kls. apply Forall_forall. intros kl Hin. apply in_map_iff in Hin.
+      destruct Hin as [x [<- Hx]]. cbn [fst snd]. rewrite Forall_forall in Hall. apply (Hall x Hx).
+    - unfold lines, kls. rewrite !map_map. apply map_ext_in. intros x Hx. cbn [snd]. unfold pl_text.
+      rewrite Forall_forall in Hall. destruct (Hall x Hx) as (_ & H1 & H2 & _). apply strip_pad; assumption. }
+  assert (Hplain : forall x, In x (pls ++ [lastl]) -> plain (pl_text x) /\ term_ok (pl_term x)).
+  { intros x Hx. rewrite Forall_forall in Hall. destruct (Hall x Hx) as (_ & _ & _ & H3 & H4). split; assumption. }
+  destruct fin.
+  - (* the last line carries its terminator: one more (empty) line after it *)
+    rewrite unl_joinT.
+    + rewrite map_app, map_map. cbn [map fst]. rewrite split_join.
+      * replace (map (fun x : pline => pl_text x) pls ++ [pl_text lastl]) with lines
+          by (unfold lines; rewrite map_app; reflexivity).
+        assert (E : parse_lines (lines ++ [[]]) false [] = parse_lines lines false []).
+        { clear -lines. generalize false, (@nil (option aa)). induction lines as [|l ls IH]; intros h acc; [reflexivity|].
+          cbn [app parse_lines]. destruct (strip l) as [|c sl]; [apply IH|].
+          destruct (Ascii.eqb c ">"); [destruct h; [reflexivity | apply IH]|]. destruct (valid_seq (c :: sl)); [apply IH | reflexivity]. }
+        rewrite E, Hlines. cbn [app]. destruct Ht as [-> | ->]; [apply final_no_star | apply final_terminal_star].
+      * apply Forall_forall. intros l Hl. apply in_app_or in Hl. destruct Hl as [Hl|[<-|[]]].
+        -- apply in_map_iff in Hl. destruct Hl as [x [<- Hx]]. cbn [fst]. apply Hplain. apply in_or_app. left. exact Hx.
+        -- apply Hplain. apply in_or_app. right. left. reflexivity.
+      * split; intros [].
+    + apply Forall_forall. intros lt Hlt. apply in_app_or in Hlt. destruct Hlt as [Hlt|[<-|[]]].
+      * apply in_map_iff in Hlt. destruct Hlt as [x [<- Hx]]. cbn [fst snd]. apply Hplain. apply in_or_app. left. exact Hx.
+      * cbn [fst snd]. apply Hplain. apply in_or_app. right. left. reflexivity.
+    + split; intros [].
+  - rewrite app_nil_r. rewrite unl_joinT.
+    + rewrite map_map. cbn [fst]. rewrite split_join.
+      * replace (map (fun x => pl_text x) pls ++ [pl_text lastl]) with lines by (unfold lines; rewrite map_app; reflexivity).
+        rewrite Hlines. cbn [app]. destruct Ht as [-> | ->]; [apply final_no_star | apply final_terminal_star].
+      * apply Forall_forall. intros l Hl. apply in_map_iff in Hl. destruct Hl as [x [<- Hx]]. apply Hplain. apply in_or_app. left. exact Hx.
+      * apply Hplain. apply in_or_app. right. left. reflexivity.
+    + apply Forall_forall. intros lt Hlt. apply in_map_iff in Hlt. destruct Hlt as [x [<- Hx]]. cbn [fst snd]. apply Hplain. apply in_or_app. left. exact Hx.
+    + apply Hplain. apply in_or_app. right. left. reflexivity.
+Qed.
+
+(* the hypotheses are satisfiable: a Windows file with a header, tab-padded numbered lines, a blank line and a final '*' *)
+Definition ex_lines : list pline :=
+  [ {| pl_kind := KHeader; pl_pre := []; pl_body := list_ascii_of_string ">sp|X test"; pl_post := [" "%char]; pl_term := [cr; nl] |};
+    {| pl_kind := KSeq; pl_pre := ["009"%char; " "%char]; pl_body := list_ascii_of_string "1 EKEKGSGSAA TY"; pl_post := ["009"%char]; pl_term := [cr; nl] |};
+    {| pl_kind := KBlank; pl_pre := []; pl_body := []; pl_post := []; pl_term := [nl] |} ].
+Definition ex_last : pline :=
+  {| pl_kind := KSeq; pl_pre := ["012"%char]; pl_body := list_ascii_of_string "13 PP*"; pl_post := []; pl_term := [cr; nl] |}.
+
+Lemma ex_ok : Forall pline_ok ex_lines /\ pline_ok ex_last.
+Proof.
+  assert (P : forall l, forallb (fun c => negb (Ascii.eqb c nl) && negb (Ascii.eqb c cr)) l = true -> plain l).
+  { intros l H. rewrite forallb_forall in H. split; intros Hin; specialize (H _ Hin); vm_compute in H; discriminate H. }
+  assert (Q : forall x, In x (ex_last :: ex_lines) -> pline_ok x).
+  { intros x Hx. cbn [In ex_lines] in Hx.
+    destruct Hx as [<-|[<-|[<-|[<-|[]]]]]; unfold pline_ok;
+      refine (conj _ (conj _ (conj _ (conj _ _)))); try reflexivity; try (apply P; reflexivity);
+      try (right; reflexivity); try (left; reflexivity).
+    exists [], (list_ascii_of_string "sp|X test"). split; reflexivity. }
+  split; [apply Forall_forall; intros x Hx; apply Q; right; exact Hx | apply Q; left; reflexivity].
+Qed.
+
+Example layout_padded_example :
+  parse (list_ascii_of_string ">sp|X test " ++ [cr; nl; "009"%char] ++ list_ascii_of_string " 1 EKEKGSGSAA TY" ++
+         ["009"%char; cr; nl; nl; "012"%char] ++ list_ascii_of_string "13 PP*" ++ [cr; nl])
+  = Some [Glu; Lys; Glu; Lys; Gly; Ser; Gly; Ser; Ala; Ala; Thr; Tyr; Pro; Pro].
+Proof.
+  destruct ex_ok as [H1 H2].
+  exact (layout_parses_padded ex_lines ex_last [Glu; Lys; Glu; Lys; Gly; Ser; Gly; Ser; Ala; Ala; Thr; Tyr; Pro; Pro] H1 H2
+           ltac:(vm_compute; lia) ltac:(right; vm_compute; reflexivity) true).
+Qed.
